@@ -586,7 +586,7 @@ func cmdCrash(args []string) int {
 		im := &imager{ctl: ctl, dir: dir, tr: tr, out: join(imgroot, fmt.Sprintf("s%d", si)), max: *maxImg}
 		im.sink = func(img Image) { cr.submit(s, img, r) }
 		ctl.OnFsPre = im.onFsPre
-		withWatchdog("crash script "+s.ID, 180*time.Second, func() {
+		withWatchdog("crash script "+s.ID, 1500*time.Second, func() {
 			if err := run.open(true); err != nil {
 				res.Err = err.Error()
 				return
